@@ -145,6 +145,56 @@ def run_udp(ck, lab):
     return n
 
 
+def socket_scenarios():
+    """the datagram services behind honeytrap's own socket listener: 48 datagrams each from its own source address, sent back
+    to back (several in flight between the receive loop and their handlers)"""
+    scs = []
+    for svc, spec in P.C04_UDP.items():
+        if svc == "dns":
+            dg = [(P.dns_query(0x1000 + 7 * i, "h%d.example.org" % i), [{"dns.id": str(0x1000 + 7 * i)}]) for i in range(48)]
+        else:
+            dg = [spec["dgrams"][i % len(spec["dgrams"])] for i in range(48)]
+        scs.append({"id": len(scs), "svc": svc, "extra": "", "dgrams": [d.hex() for d, _ in dg], "gap_us": 0, "expect": [ev for _, ev in dg]})
+    return scs
+
+
+def judge_socket(sc, res):
+    """-> (wrong, missing): datagrams whose events carry something else than their own fields / that have no events"""
+    spec = P.C04_UDP[sc["svc"]]
+    wrong, missing = [], []
+    for i, exp in enumerate(sc["expect"]):
+        ip = "127.9.%d.%d" % (i // 250, 1 + i % 250)
+        got = project(res.get("events") or [], ip, spec["keys"], 0)
+        if matches(exp, got):
+            continue
+        (missing if not got else wrong).append((i, exp, got))
+    return wrong, missing
+
+
+def run_udp_socket(ck, lab):
+    scs = socket_scenarios()
+    slim = lambda xs: [{k: v for k, v in s.items() if k != "expect"} for s in xs]
+    results = {r["id"]: r for r in lib.run_sharded(lab, "udpsock", slim(scs), shards=min(len(scs), 5), timeout=600)}
+    for sc in scs:
+        res = results[sc["id"]]
+        if res.get("error"):
+            raise lib.Infra("udpsock %s: %s" % (sc["svc"], res["error"]))
+        wrong, missing = judge_socket(sc, res)
+        if not wrong and not missing:
+            continue
+        # datagrams may be lost on the way (that is no fault of the listener): believe it only if it happens again, twice
+        again = [judge_socket(sc, r) for r in lib.run_sharded(lab, "udpsock", slim([dict(sc, id=0), dict(sc, id=1)]), shards=2, timeout=600)]
+        if not all(w or m for w, m in again):
+            ck.notes.append("%s behind the socket listener: %d of 48 datagrams without their events in one run, not reproduced" % (sc["svc"], len(wrong) + len(missing)))
+            continue
+        i, exp, got = (wrong or missing)[0]
+        ck.disagree("%s/udp-socket/%s" % (sc["svc"], "events-of-another-datagram" if wrong else "datagram-not-reported"),
+                    "%s behind the socket listener, 48 datagrams back to back from 48 sources: datagram %d produced %s, expected %s (%d wrong, %d unreported; "
+                    "reproduced in two more runs)" % (sc["svc"], i, json.dumps(got)[:160], json.dumps(exp)[:160], len(wrong), len(missing)),
+                    {"svc": sc["svc"], "udp_socket": True})
+    return len(scs) * 48
+
+
 def run(tier, lab):
     ck = lib.Check(PROP, tier, "model_checking")
     rng = random.Random(lib.seed())
@@ -168,6 +218,7 @@ def run(tier, lab):
     for svc in SERVICES:
         if svc == "udp":
             total += run_udp(ck, lab)
+            total += run_udp_socket(ck, lab)
             continue
         n = run_tcp(ck, lab, svc, tier, cutsets, rng)
         ck.cov.setdefault("per_service", {})[svc] = n
@@ -188,7 +239,9 @@ def replay(lab, path):
     rp = json.load(open(path))["replay"]
     ck = lib.Check(PROP, "quick", "model_checking")
     ck.findings.entries = []
-    if rp.get("udp"):
+    if rp.get("udp_socket"):
+        run_udp_socket(ck, lab)
+    elif rp.get("udp"):
         run_udp(ck, lab)
     else:
         svc = rp["svc"]
